@@ -282,6 +282,74 @@ theorem mclear_spec (x : XMem) (inv : x.Inv) :
   · simp [XMem.asize]
   · exact term_set x.mem _ (by omega)
 
+/-- `iwxstr_wrap`: room for the terminator is made when the caller's buffer is exactly full -/
+theorem mwrap_spec (junk : Nat) (b : Bytes) (asize : Nat) :
+    ∃ x, mwrap junk b asize = some x ∧ x.Inv ∧ x.data = b ∧
+      x.asize = (if b.length ≥ asize then b.length + 1 else asize) ∧ x.term = true := by
+  unfold mwrap
+  dsimp only
+  generalize hbuf : b ++ List.replicate (asize - b.length) junk = buf
+  have hbl : buf.length = b.length + (asize - b.length) := by rw [← hbuf]; simp
+  have hbg : ∀ j, j < b.length → buf[j]? = b[j]? := by
+    intro j hj; rw [← hbuf, List.getElem?_append_left hj]
+  generalize hmem : (if b.length ≥ asize then realloc junk buf (b.length + 1) else buf) = mem
+  have hml : mem.length = (if b.length ≥ asize then b.length + 1 else asize) := by
+    rw [← hmem]; split
+    · rw [length_realloc]
+    · rw [hbl]; omega
+  have hmg : ∀ j, j < b.length → mem[j]? = b[j]? := by
+    intro j hj
+    rw [← hmem]; split
+    · rw [getElem?_realloc, if_pos (by omega), if_pos (by omega)]; exact hbg j hj
+    · exact hbg j hj
+  have hlt : b.length < mem.length := by rw [hml]; split <;> omega
+  rw [poke_some _ _ _ hlt]
+  refine ⟨_, rfl, ?_, ?_, ?_, term_set mem _ hlt⟩
+  · show b.length < (mem.set b.length 0).length
+    simp; exact hlt
+  · apply List.ext_getElem?
+    intro j
+    rw [data_get]
+    simp only [List.getElem?_set]
+    by_cases c : j < b.length
+    · rw [if_pos c, if_neg (by omega), hmg j c]
+    · rw [if_neg c]; simp; omega
+  · show (mem.set b.length 0).length = _
+    simp [hml]
+
+/-- `iwxstr_clone` (fixed code): same data, same allocation size, terminated -/
+theorem mclone_spec (junk : Nat) (x : XMem) (inv : x.Inv) :
+    ∃ c, mclone junk x = some c ∧ c.Inv ∧ c.data = x.data ∧ c.asize = x.asize ∧ c.term = true := by
+  unfold XMem.Inv at inv
+  unfold mclone
+  have hcopy : ∃ m, (if x.size ≠ 0 then mclone.copyIn' (List.replicate x.mem.length junk) x.mem x.size
+      else some (List.replicate x.mem.length junk)) = some m ∧ m.length = x.mem.length ∧
+      ∀ j, j < x.size → m[j]? = x.mem[j]? := by
+    by_cases h0 : x.size ≠ 0
+    · rw [if_pos h0]
+      unfold mclone.copyIn'
+      rw [if_pos ⟨by omega, by simp; omega⟩]
+      refine ⟨_, rfl, by simp; omega, ?_⟩
+      intro j hj
+      rw [List.getElem?_append_left (by simp; omega), List.getElem?_take, if_pos hj]
+    · rw [if_neg h0]
+      exact ⟨_, rfl, by simp, fun j hj => by omega⟩
+  obtain ⟨m, e, l, g⟩ := hcopy
+  simp only [e, Option.bind_some]
+  rw [poke_some _ _ _ (by omega)]
+  refine ⟨_, rfl, ?_, ?_, ?_, term_set m _ (by omega)⟩
+  · show x.size < (m.set x.size 0).length
+    simp; omega
+  · apply List.ext_getElem?
+    intro j
+    rw [data_get, data_get]
+    simp only [List.getElem?_set]
+    by_cases c : j < x.size
+    · rw [if_pos c, if_pos c, if_neg (by omega), g j c]
+    · rw [if_neg c, if_neg c]
+  · show (m.set x.size 0).length = _
+    simp [l, XMem.asize]
+
 /-! ### the print functions -/
 
 theorem vsnprintf_spec (junk cap : Nat) (out : Bytes) (hc : 0 < cap) :
